@@ -62,6 +62,8 @@ enum rx_state {
 	RX_ST_CTRL,
 	RX_ST_DATA,
 	RX_ST_ESCAPE,
+	RX_ST_ADDR_ESCAPE,
+	RX_ST_CTRL_ESCAPE,
 };
 
 static struct {
@@ -265,11 +267,28 @@ int sercomm_drv_rx_char(uint8_t ch)
 		sercomm.rx.state = RX_ST_ADDR;
 		break;
 	case RX_ST_ADDR:
+		/* the transmitter escapes the address and control octets, too */
+		if (ch == HDLC_ESCAPE) {
+			sercomm.rx.state = RX_ST_ADDR_ESCAPE;
+			break;
+		}
 		sercomm.rx.dlci = ch;
 		sercomm.rx.state = RX_ST_CTRL;
 		break;
+	case RX_ST_ADDR_ESCAPE:
+		sercomm.rx.dlci = ch ^ (1 << 5);
+		sercomm.rx.state = RX_ST_CTRL;
+		break;
 	case RX_ST_CTRL:
+		if (ch == HDLC_ESCAPE) {
+			sercomm.rx.state = RX_ST_CTRL_ESCAPE;
+			break;
+		}
 		sercomm.rx.ctrl = ch;
+		sercomm.rx.state = RX_ST_DATA;
+		break;
+	case RX_ST_CTRL_ESCAPE:
+		sercomm.rx.ctrl = ch ^ (1 << 5);
 		sercomm.rx.state = RX_ST_DATA;
 		break;
 	case RX_ST_DATA:
